@@ -239,6 +239,9 @@ class Ctx:
                 print('INFO: listed finding not reproduced in this run (tier=%s): %s' % (self.tier, sig))
         rdir = self.work / 'replay'
         rdir.mkdir(exist_ok=True)
+        for k_, (sig, (what, replay)) in enumerate(sorted(seen_known.items())):     # one example per reproduced listed finding
+            (rdir / ('known_%03d.json' % (k_ + 1))).write_text(json.dumps({'property': self.pid, 'signature': sig, 'what': what,
+                                                                          'replay': replay}, indent=1, default=str))
         n = 0
         for sig, (what, replay) in new.items():
             n += 1
